@@ -5,7 +5,10 @@
 
    The write cursor (scursor::WriteCursor over a buffer of `cap` bytes) is modelled by the sequence of its
    operations: `write` of some bytes (WriteOverflow when they do not fit) and `skip` (BadSeek when the
-   position would pass the end).  Patching with `at_pos` never fails once the skip succeeded. *)
+   position would pass the end).  Patching with `at_pos` never fails once the skip succeeded.
+
+   Also here: the writers of the free-format file objects g70v2 .. g70v8 (dnp3/src/app/file/g70v*.rs `write`,
+   the helper `byte_length` of app/file/mod.rs) and HeaderWriter::write_free_format. *)
 From Dnp3V Require Export App.Grammar.
 Open Scope N_scope.
 
@@ -50,6 +53,112 @@ Definition aw_attr_value (val : awattr) : option (list N) :=
   | WaTime x => Some (attr_dnp3_time :: 6 :: ale_bytes 6 x)
   end.
 
+(* ---- free-format file objects (group 70): dnp3/src/app/file/g70v2.rs .. g70v8.rs -------------------
+   Strings (&str) are given as the list of their UTF-8 bytes, so `length` of a string field IS
+   str::len() = the number of bytes, which is what `byte_length` must put into the 16-bit size fields.
+   Numeric fields are the raw wire values (FileStatus::to_u8, FileType::to_u16, FileMode::to_u16,
+   Permissions::value (9 bits), Timestamp::raw_value (48 bits)). *)
+Record ag70v2 := { f2_auth_key : N; f2_user_name : list N; f2_password : list N }.
+Record ag70v3 := { f3_time : N; f3_permissions : N; f3_auth_key : N; f3_file_size : N; f3_mode : N;
+                   f3_max_block_size : N; f3_request_id : N; f3_file_name : list N }.
+Record ag70v4 := { f4_file_handle : N; f4_file_size : N; f4_max_block_size : N; f4_request_id : N;
+                   f4_status : N; f4_text : list N }.
+Record ag70v5 := { f5_file_handle : N; f5_block_number : N; f5_file_data : list N }.
+Record ag70v6 := { f6_file_handle : N; f6_block_number : N; f6_status : N; f6_text : list N }.
+Record ag70v7 := { f7_file_type : N; f7_file_size : N; f7_time : N; f7_permissions : N; f7_request_id : N;
+                   f7_file_name : list N }.
+Record ag70v8 := { f8_file_specification : list N }.
+
+Inductive afree :=
+| F70v2 (x : ag70v2) | F70v3 (x : ag70v3) | F70v4 (x : ag70v4) | F70v5 (x : ag70v5)
+| F70v6 (x : ag70v6) | F70v7 (x : ag70v7) | F70v8 (x : ag70v8).
+
+Definition afree_var (o : afree) : N :=
+  match o with
+  | F70v2 _ => 2 | F70v3 _ => 3 | F70v4 _ => 4 | F70v5 _ => 5 | F70v6 _ => 6 | F70v7 _ => 7 | F70v8 _ => 8
+  end.
+
+(* str::len() / [u8]::len() *)
+Definition alen (b : list N) : N := N.of_nat (length b).
+
+(* to_u16(x) / u16::checked_add succeed *)
+Definition afits16 (x : N) : bool := x <=? 65535.
+
+(* one step of a `write` function: bytes handed to the cursor, or a numeric check (byte_length's to_u16,
+   checked_add) that raises format::WriteError::Overflow when it fails; the order is the order of the
+   Rust statements, which decides the error that is reported when several things are wrong *)
+Inductive fwstep := FsBytes (bs : list N) | FsCheck (ok : bool).
+
+Definition fw_steps (o : afree) : list fwstep :=
+  match o with
+  | F70v2 x =>
+      let ul := alen (f2_user_name x) in
+      let pl := alen (f2_password x) in
+      [FsBytes (ale_bytes 2 g70v2_user_name_offset);
+       FsCheck (afits16 ul); FsBytes (ale_bytes 2 ul);
+       FsCheck (afits16 (g70v2_user_name_offset + ul)); FsBytes (ale_bytes 2 (g70v2_user_name_offset + ul));
+       FsCheck (afits16 pl); FsBytes (ale_bytes 2 pl);
+       FsBytes (ale_bytes 4 (f2_auth_key x));
+       FsBytes (f2_user_name x); FsBytes (f2_password x)]
+  | F70v3 x =>
+      let nl := alen (f3_file_name x) in
+      [FsBytes (ale_bytes 2 g70v3_file_name_offset);
+       FsCheck (afits16 nl); FsBytes (ale_bytes 2 nl);
+       FsBytes (ale_bytes 6 (f3_time x)); FsBytes (ale_bytes 2 (f3_permissions x));
+       FsBytes (ale_bytes 4 (f3_auth_key x)); FsBytes (ale_bytes 4 (f3_file_size x));
+       FsBytes (ale_bytes 2 (f3_mode x)); FsBytes (ale_bytes 2 (f3_max_block_size x));
+       FsBytes (ale_bytes 2 (f3_request_id x)); FsBytes (f3_file_name x)]
+  | F70v4 x =>
+      [FsBytes (ale_bytes 4 (f4_file_handle x)); FsBytes (ale_bytes 4 (f4_file_size x));
+       FsBytes (ale_bytes 2 (f4_max_block_size x)); FsBytes (ale_bytes 2 (f4_request_id x));
+       FsBytes (ale_bytes 1 (f4_status x)); FsBytes (f4_text x)]
+  | F70v5 x =>
+      [FsBytes (ale_bytes 4 (f5_file_handle x)); FsBytes (ale_bytes 4 (f5_block_number x)); FsBytes (f5_file_data x)]
+  | F70v6 x =>
+      [FsBytes (ale_bytes 4 (f6_file_handle x)); FsBytes (ale_bytes 4 (f6_block_number x));
+       FsBytes (ale_bytes 1 (f6_status x)); FsBytes (f6_text x)]
+  | F70v7 x =>
+      let nl := alen (f7_file_name x) in
+      [FsBytes (ale_bytes 2 g70v7_file_name_offset);
+       FsCheck (afits16 nl); FsBytes (ale_bytes 2 nl);
+       FsBytes (ale_bytes 2 (f7_file_type x)); FsBytes (ale_bytes 4 (f7_file_size x));
+       FsBytes (ale_bytes 6 (f7_time x)); FsBytes (ale_bytes 2 (f7_permissions x));
+       FsBytes (ale_bytes 2 (f7_request_id x)); FsBytes (f7_file_name x)]
+  | F70v8 x => [FsBytes (f8_file_specification x)]
+  end.
+
+(* the cursor operations up to the first failing check, and that check's error *)
+Fixpoint fw_cut (steps : list fwstep) : list awop * option awerr :=
+  match steps with
+  | [] => ([], None)
+  | FsBytes bs :: r => (WoBytes bs :: fst (fw_cut r), snd (fw_cut r))
+  | FsCheck true :: r => fw_cut r
+  | FsCheck false :: _ => ([], Some WENumeric)
+  end.
+
+Fixpoint fw_bytes (steps : list fwstep) : list N :=
+  match steps with
+  | [] => []
+  | FsBytes bs :: r => bs ++ fw_bytes r
+  | FsCheck _ :: r => fw_bytes r
+  end.
+
+(* the object body when every check passes *)
+Definition fw_body (o : afree) : list N := fw_bytes (fw_steps o).
+
+(* T::write into a cursor that is large enough: the body, or Overflow *)
+Definition awrite_free (o : afree) : ares (list N) awerr :=
+  match snd (fw_cut (fw_steps o)) with
+  | Some e => AErr e
+  | None => AOk (fw_body o)
+  end.
+
+(* HeaderWriter::write_free_format: group, variation, qualifier 0x5B, count 1, the 16-bit length of the
+   object (patched after the object has been written), the object *)
+Definition aw_free_bytes (o : afree) : list N :=
+  let body := fw_body o in
+  [70; afree_var o; q_free_format16; 1; lo8 (alen body); hi8 (alen body)] ++ body.
+
 Inductive awheader :=
 | WAll (g v : N)
 | WRange8 (g v start stop : N)
@@ -60,7 +169,8 @@ Inductive awheader :=
 | WPrefixed (g v psize : N) (items : list (N * list N))      (* (index, object as T::read accepts it) *)
 | WCountOfOne (g v : N) (obj : list N)
 | WClearRestart
-| WAttr (set var : N) (val : awattr).
+| WAttr (set var : N) (val : awattr)
+| WFree (obj : afree).
 
 (* T::write of T::read of the given bytes (the harness builds the objects with the production `read`) *)
 Definition arewrite (g v : N) (obj : list N) : list N :=
@@ -96,12 +206,14 @@ Definition aw_bytes (h : awheader) : list N :=
   | WCountOfOne g v obj => [g; v; q_count8; 1] ++ arewrite g v obj
   | WClearRestart => [80; 1; q_range8; 7; 7; 0]
   | WAttr set var val => [0; var; q_range8; set; set] ++ match aw_attr_value val with Some b => b | None => [] end
+  | WFree obj => aw_free_bytes obj
   end.
 
 (* the cursor operations that produce them, in order *)
 (* ... and the error, if any, that is raised once they have all succeeded: a prefixed header refuses the
    item that does not fit its count field (NumericOverflow), an attribute string longer than 255 bytes
-   is refused after the header has been written (BadLength) *)
+   is refused after the header has been written (BadLength); a free-format object stops at its first
+   failing numeric check, and once it has been written its length must fit the 16-bit length field *)
 Definition aw_ops (h : awheader) : list awop * option awerr :=
   match h with
   | WPrefixed g v psize items =>
@@ -114,6 +226,12 @@ Definition aw_ops (h : awheader) : list awop * option awerr :=
       | Some b => ([WoBytes [0; var; q_range8; set; set]; WoBytes b], None)
       | None => ([WoBytes [0; var; q_range8; set; set]], Some WEAttrLength)
       end
+  | WFree obj =>
+      (WoBytes [70; afree_var obj; q_free_format16; 1] :: WoSkip 2 :: fst (fw_cut (fw_steps obj)),
+       match snd (fw_cut (fw_steps obj)) with
+       | Some e => Some e
+       | None => if afits16 (alen (fw_body obj)) then None else Some WENumeric
+       end)
   | _ => ([WoBytes (aw_bytes h)], None)
   end.
 
